@@ -1,8 +1,7 @@
 /-
   Blocking pops — the service line of a key is FIFO: whatever happens, clients already in line keep
   their relative order and newcomers join behind them (`fifo_runFrom`), and a wake-up delivery goes to
-  the head of the line (`wakeOne_serves_head`).  Unconditional in the event sequence; the only quirk
-  hypothesis is that an empty wake-up does not re-queue (what the tree does today).
+  the head of the line (`wakeOne_serves_head`).  Unconditional in the event sequence and in the quirk switches.
 -/
 import FerrousSpec.Proofs.BlockingBasic
 namespace Ferrous.Blk
@@ -64,6 +63,38 @@ theorem lineOf_emit (s : State) (c : Conn) (r : Reply) (k : Key) : lineOf (emit 
 theorem lineOf_setBlocked (s : State) (c : Conn) (b) (k : Key) : lineOf (setBlocked s c b) k = lineOf s k :=
   lineOf_congr (by simp) (by simp) k
 
+theorem fifo_wakeOne (q : Quirks) (s : State) (k : Key) :
+    FifoStep (lineOf s k) (lineOf (wakeOne q s) k) := by
+  unfold wakeOne
+  split
+  · exact .refl _
+  · next w rest hw =>
+    have hsub : rest.Sublist s.wakeQ := by rw [hw]; exact List.sublist_cons_self w rest
+    simp only []
+    split
+    · exact .of_sublist (lineOf_sublist (t := { s with wakeQ := rest }) hsub (List.Sublist.refl _) k)
+    · next e st' hp =>
+      split
+      · split
+        · apply FifoStep.of_sublist
+          apply lineOf_sublist
+          · simpa using hsub
+          · simp only [setBlocked_registry, emit_registry]
+            exact List.filter_sublist
+        · apply FifoStep.of_sublist
+          apply lineOf_sublist
+          · simpa using hsub
+          · simp
+      · exact .of_sublist (lineOf_sublist (t := { s with wakeQ := rest, store := st', lost := s.lost ++ [e] })
+          hsub (List.Sublist.refl _) k)
+
+theorem fifo_iter {f : State → State} {k : Key} (hf : ∀ s, FifoStep (lineOf s k) (lineOf (f s) k)) :
+    ∀ n s, FifoStep (lineOf s k) (lineOf (iter f n s) k) := by
+  intro n
+  induction n with
+  | zero => intro s; exact .refl _
+  | succ n ih => intro s; exact (hf s).trans (ih _)
+
 theorem fifo_dataCmd (q : Quirks) (now : Nat) (c cid : Conn) (s : State) (cmd : Cmd) (k : Key) :
     FifoStep (lineOf s k) (lineOf (dataCmd q now c cid s cmd) k) := by
   cases cmd with
@@ -71,9 +102,15 @@ theorem fifo_dataCmd (q : Quirks) (now : Nat) (c cid : Conn) (s : State) (cmd : 
     simp only [dataCmd]
     split
     · exact .of_eq (lineOf_emit ..)
-    · apply FifoStep.of_eq
-      rw [lineOf_notifyN, lineOf_emit]
-      exact lineOf_congr rfl rfl k
+    · have hN : FifoStep (lineOf s k) (lineOf (notifyN (if q.notifyPerElement then vs.length else 1) k'
+          (emit { s with store := pushElems op k' vs s.store, pushed := (s.pushed ++ vs.map fun v => (k', v)) } c
+            (.int (listOf (pushElems op k' vs s.store) k').length))) k) := by
+        apply FifoStep.of_eq
+        rw [lineOf_notifyN, lineOf_emit]
+        exact lineOf_congr rfl rfl k
+      split
+      · exact hN.trans (fifo_iter (fifo_wakeOne q · k) _ _)
+      · exact hN
   | pop op k' =>
     simp only [dataCmd]
     split
@@ -128,39 +165,6 @@ theorem fifo_topCmd (q : Quirks) (now : Nat) (c : Conn) (s : State) (cmd : Cmd) 
     · exact hq _ _
     · exact fifo_dataCmd ..
 
-theorem fifo_wakeOne (q : Quirks) (hq : q.requeueOnEmptyWake = false) (s : State) (k : Key) :
-    FifoStep (lineOf s k) (lineOf (wakeOne q s) k) := by
-  unfold wakeOne
-  split
-  · exact .refl _
-  · next w rest hw =>
-    have hsub : rest.Sublist s.wakeQ := by rw [hw]; exact List.sublist_cons_self w rest
-    simp only [hq]
-    split
-    · simp only [Bool.false_eq_true, false_and, if_false]
-      exact .of_sublist (lineOf_sublist (t := { s with wakeQ := rest }) hsub (List.Sublist.refl _) k)
-    · next e st' hp =>
-      split
-      · split
-        · apply FifoStep.of_sublist
-          apply lineOf_sublist
-          · simpa using hsub
-          · simp only [setBlocked_registry, emit_registry]
-            exact List.filter_sublist
-        · apply FifoStep.of_sublist
-          apply lineOf_sublist
-          · simpa using hsub
-          · simp
-      · exact .of_sublist (lineOf_sublist (t := { s with wakeQ := rest, store := st', lost := s.lost ++ [e] })
-          hsub (List.Sublist.refl _) k)
-
-theorem fifo_iter {f : State → State} {k : Key} (hf : ∀ s, FifoStep (lineOf s k) (lineOf (f s) k)) :
-    ∀ n s, FifoStep (lineOf s k) (lineOf (iter f n s) k) := by
-  intro n
-  induction n with
-  | zero => intro s; exact .refl _
-  | succ n ih => intro s; exact (hf s).trans (ih _)
-
 theorem fifo_timeoutConn (s : State) (c : Conn) (k : Key) : lineOf (timeoutConn s c) k = lineOf s k := by
   unfold timeoutConn
   split
@@ -181,10 +185,10 @@ theorem fifo_expireOne (now : Nat) (s : State) (k : Key) :
       exact List.Sublist.append (List.Sublist.refl _) (List.sublist_cons_self e b)
     exact lineOf_sublist (s := s) (t := { s with registry := reg' }) (List.Sublist.refl _) hreg k
 
-theorem fifo_step (q : Quirks) (hq : q.requeueOnEmptyWake = false) (s : State) (e : Event) (k : Key) :
+theorem fifo_step (q : Quirks) (s : State) (e : Event) (k : Key) :
     FifoStep (lineOf s k) (lineOf (step q s e) k) := by
   cases e with
-  | wakeups => exact fifo_iter (fifo_wakeOne q hq · k) _ _
+  | wakeups => exact fifo_iter (fifo_wakeOne q · k) _ _
   | conn c now cmds =>
     simp only [step]
     split
@@ -207,11 +211,11 @@ theorem fifo_step (q : Quirks) (hq : q.requeueOnEmptyWake = false) (s : State) (
       · exact List.filter_sublist
     · exact .refl _
 
-theorem fifo_runFrom (q : Quirks) (hq : q.requeueOnEmptyWake = false) (k : Key) (evs : List Event) :
+theorem fifo_runFrom (q : Quirks) (k : Key) (evs : List Event) :
     ∀ s, FifoStep (lineOf s k) (lineOf (runFrom q s evs) k) := by
   induction evs with
   | nil => intro s; exact .refl _
-  | cons e r ih => intro s; exact (fifo_step q hq s e k).trans (ih _)
+  | cons e r ih => intro s; exact (fifo_step q s e k).trans (ih _)
 
 /-- A wake-up delivery (`pair k v` written to `c`) goes to the head of the line of `k`. -/
 theorem wakeOne_serves_head (q : Quirks) (s : State) (c : Conn) (k : Key) (v : Elem)
@@ -226,11 +230,7 @@ theorem wakeOne_serves_head (q : Quirks) (s : State) (c : Conn) (k : Key) (v : E
   · next w rest hw =>
     simp only [] at h
     split at h
-    · split at h
-      · split at h
-        · exact absurd h (hne _ _)
-        · exact absurd h (hne _ _)
-      · exact absurd h (hne _ _)
+    · exact absurd h (hne _ _)
     · next e st' hp =>
       obtain ⟨_, _, _, _, hek⟩ := popElem_some hp
       have hout : (emit { s with wakeQ := rest, store := st' } w.conn (.pair e.1 e.2)).out = s.out ++ [(c, .pair k v)] := by
